@@ -12,7 +12,7 @@ from kv import Case, xn, xb, xl, xlist, xopt, xbool
 
 ID = "C02"
 MODULE = "C02"
-IMPORTS = "Bytes RustInt RustStd Panics PanicsProofs Ims ImsProofs"
+IMPORTS = "Bytes RustInt RustStd Panics PanicsProofs Ims ImsProofs UrlCrawl UrlCrawlProofs"
 PROFILES = ("dev", "nochk")
 KERNEL_SAMPLE = 30
 THEOREMS = []     # pinned statements: at the end of the file
@@ -54,8 +54,9 @@ INVENTORY = [
     ("utils/src/parse.rs apply_to_response", "range_end - 1; body.slice(range_start as usize..range_end as usize); "
      "HeaderValue::from_maybe_shared(..).unwrap()", "Model/Range.v apply_range (sub_u64, slice_chk); range_never_panics (C09)"),
     ("src/lib.rs handle_cache / get_response", "utils::parse::uri(&decoded).unwrap(); creation - 1.seconds(); format(..).expect(..)",
-     "Model/PathSan.v request_fs_path; fs_path_never_panics (C01). The date arithmetic is on the server's clock; the if-modified-since "
-     "parser is the time crate: exploration component explore.date"),
+     "Model/PathSan.v request_fs_path; fs_path_never_panics (C01). If-Modified-Since (to_str, the time crate's parser for HTTP_DATE, "
+     "timestamp >= creation - 1 s): Model/Ims.v; if_modified_since_never_panics / _rule / _plus_variant_refuted; components ims.decide "
+     "(compared) and explore.date, both through the REAL hit arm of handle_cache on a warmed cache"),
     ("src/lib.rs SendKind::send", "apply_to_response on the encoded body; ensure_length; set_content_length(..).unwrap()",
      "Model/RangeConn.v conn_step (C09); conn_never_panics"),
     ("src/comprash.rs PathQuery / UriKey", "&self.string[..query_start]; &self.string[query_start..]", "Model/Panics.v pq_path/pq_query; "
@@ -76,14 +77,18 @@ INVENTORY = [
      "Model/Cors.v is_part_of_origin / check_cors_request are total (C13); borrowed component cors.check"),
     ("src/vary.rs VariedResponse", "responses.insert(position, ..); &self.responses[position]; first().unwrap(); get_by_request(..).unwrap_err()",
      "Model/Vary.v (C05 stale_position_safe); exploration on /v"),
-    ("src/limiting.rs register", "max_requests * 3; iteration + 1; expect(\"we're before 1970!?\")", "Model/Limiter.v; limiter_never_panics (C12)"),
+    ("src/limiting.rs register", "max_requests * 3; iteration + 1; expect(\"we're before 1970!?\")", "Model/Limiter.v; limiter_never_panics (C12); a stage "
+     "of request_path (every configuration, every history of earlier registrations); the 429 answer and the drop are reached live on the host "
+     "lim.example"),
     ("src/extensions.rs uri_redirect (Prime)", "PathAndQuery::from_maybe_shared(..).unwrap(); Uri::from_parts(..).unwrap()",
      "http crate invariants (path + configured suffix + query is a valid path-and-query below 64 KiB because the head is below 16 KiB): "
      "not modelled, exploration (paths ending in '/' and '.')"),
     ("src/extensions.rs http_to_https (Prepare)", "HeaderValue::from_maybe_shared(..).unwrap() on authority + path + query",
      "needs a certificate; URI bytes are visible ASCII or >= 0x80, never DEL: not modelled, not explored"),
     ("src/extensions.rs stream_body", "end - start; pos += read; read - (pos - end) as usize; &buf[..buf_end]",
-     "Model/Panics.v stream_window/stream_chunk; stream_window_never_panics; component stream.window (loopback)"),
+     "Model/Panics.v stream_window/stream_chunk/stream_loop; stream_window_never_panics, stream_body_never_panics (the hypotheses of "
+     "stream_chunk_never_panics are invariants of the loop); component stream.window (loopback): announced length, bytes really sent, "
+     "framing of the next response"),
     ("src/extensions.rs resolve_present + utils/src/extensions.rs PresentExtensions", "body.split_off(data_start); &data[start..pos]; "
      "extensions[start + 1..]", "Model/PresentLine.v (C16) — file content, not request bytes; borrowed component present.parse"),
     ("src/extensions.rs nonce (Present)", "&body[value_start + 1..]; BytesCow::replace expect(..)", "Model/Nonce.v nonce_never_panics (C14) — file content"),
@@ -95,7 +100,21 @@ INVENTORY = [
     ("src/extensions.rs add_sorted_list!", "panic!(\"reached minimum priority ..\") at i32::MIN", "configuration time (C16), no client input"),
     ("src/vary.rs get_header", "capacity arithmetic over configured header names; from_maybe_shared_unchecked", "configured names only (asserted in add_rule)"),
     ("utils/src/lib.rs quoted_str_split", "-", "Model/Quoted.v (C19): control socket only, not reachable over HTTP"),
-    ("http, h2, h3, rustls, moka, time, tokio, percent-encoding, mime", "-", "not modelled; exploration run only (explore.conn, explore.date)"),
+    ("url-crawl/src/lib.rs LinkIter (file / upstream content: HTTP/2 push, reverse proxy)", "&self.data[pos + 1..]; &quote[..ending]; &self.data[..=pos]; "
+     "&self.data[advance..]; QuoteType::from_byte(..).unwrap(); &data[..pos], &data[tag_start..tag_len + tag_start] in filters::resource",
+     "Model/UrlCrawl.v (both filters of the crate); link_iter_never_panics, link_iter_v0_refuted; FIXED fa13a8b; components urls.iter (compared), explore.urls"),
+    ("extensions/src/templates.rs extract_templates / handle_template (file content: the operator's templates and the pages that name them)",
+     "file.slice(start..end) x2; start_byte.take().unwrap() x5; &file[start..position - 1]; file[..=first_line_end]; file[placeholder_start + 2..position]",
+     "not modelled; FIXED fe1115a (an empty last template); component explore.file: template files bounded-exhaustively over {$[ a ] LF CRLF \\ SP}, "
+     "pages with every placeholder shape"),
+    ("extensions/src/lib.rs download / cache / hide / ip_allow (Present), push (Post)", "argument parsers (split(':'), parse::<IpAddr>(), str::parse for cache "
+     "preferences); c.replace(0..data_start, ..) in hide; &path[..=last_slash] in push (HTTP/2 only)",
+     "not modelled; linked into the exploration host (kvarn_extensions::mount_all): fixture pages and generated first lines (explore.file); push runs "
+     "on HTTP/2 only and is not reached (url_crawl is covered directly)"),
+    ("src/shutdown.rs connection count", "ConnectionGuard (drop guard, C10)", "component explore.server: a real RunConfig::execute server; "
+     "Manager::get_connecions() is read after every case and must be back at its idle value"),
+    ("http, h2, h3, rustls, moka, time (formatting), tokio, percent-encoding, mime, mime_guess, tree_magic_mini", "-",
+     "not modelled; exploration runs only (explore.conn, explore.server, explore.file)"),
 ]
 
 
@@ -350,7 +369,9 @@ def generate(rng, tier):
     cases += [hdr_case(b"A: \n\n", "corpus"), hdr_case(b"A:\n\n", "corpus"), head_case(b"GET / HTTP/1.1\r\nA: \n\r\n", "corpus")]
     # fe1115a (an empty last template), fa13a8b (a quote that is not closed)
     cases += [file_case(b"!> tmpl T\n$[a]", b"$[a]\n", "corpus"), file_case(b"!> tmpl T\n<p>$[b]</p>", b"$[a]\nA\n$[b]\n", "corpus"),
-              Case("explore.urls", xb(b"<img src=\"/abc"), None, {"kind": "corpus"}), Case("explore.urls", xb(b"<link href='/x.css"), None, {"kind": "corpus"})]
+              Case("explore.urls", xb(b"<img src=\"/abc"), None, {"kind": "corpus"}), Case("explore.urls", xb(b"<link href='/x.css"), None, {"kind": "corpus"}),
+              Case("urls.iter", xl(xn(2), xbool(False), xb(b"<img src=\"/abc")), None, {"kind": "corpus"}),
+              Case("urls.iter", xl(xn(1), xbool(False), xb(b"<a href='/x")), None, {"kind": "corpus"})]
 
     # ---- heads ------------------------------------------------------------------------------------------------------
     cases += exhaustive_heads(tier)
@@ -580,7 +601,7 @@ def generate(rng, tier):
         line = line if rng.random() < 0.7 else mutate(rng, line, ALPHA_P)
         cases.append(file_case(line + rng.choice(P_BODY), rng.choice(T_FILES), "file-random", ext=rng.choice([0, 0, 1]), one_request=quick))
     # template files: bounded-exhaustive over the structural tokens of the template syntax
-    for w in words(b"", 4 if quick else 6, [b"$[", b"a", b"]", b"\n", b"\r\n", b"\\", b" "]):
+    for w in words(b"", 4 if quick else 5, [b"$[", b"a", b"]", b"\n", b"\r\n", b"\\", b" "]):
         cases.append(file_case(b"!> tmpl T\n$[a]|$[b]", w, "file-template", one_request=True))
     for b_ in P_BODY:
         cases.append(file_case(b"!> tmpl T\n" + b_, b"$[a]\nA\n", "file-template"))
@@ -594,7 +615,15 @@ def generate(rng, tier):
             b"<img src=\"/a.png\" loading=\"lazy\"><main style=\"background-image: url('/bg.png');\"><a href=\"/x\">x</a></main></body></html>")
     for _ in range(500 if quick else 30000):
         m = mutate(rng, html, b"<>\"'` =/\\\xc3\xa9\xff")
-        cases.append(Case("explore.urls", xb(m[:rng.randrange(0, len(m) + 1)] if rng.random() < 0.5 else m), None, {"kind": "urls-random"}))
+        m = m[:rng.randrange(0, len(m) + 1)] if rng.random() < 0.5 else m
+        cases.append(Case("explore.urls", xb(m), None, {"kind": "urls-random"}))
+        cases.append(Case("urls.iter", xl(xn(rng.choice([0, 1, 2, 2])), xbool(rng.random() < 0.3), xb(m)), None, {"kind": "urls-iter-random"}))
+    # ... and the items they yield, compared with Model/UrlCrawl.v (every quote / absolute-path filter / resource filter)
+    for w in words(b"", 3 if quick else 4, U_SYMS):
+        f = len(w) % 3
+        cases.append(Case("urls.iter", xl(xn(f), xbool(len(w) % 5 == 0), xb(w)), None, {"kind": "urls-iter-words"}))
+    for w in words(b"", 4 if quick else 6, [b"\"", b"'", b"/", b"a", b"=", b" src=", b"\xc3\xa9", b"\\", b"//"]):
+        cases.append(Case("urls.iter", xl(xn(len(w) % 3), xbool(False), xb(b"<img src=" + w)), None, {"kind": "urls-iter-words"}))
     # ONE request against a minimal collection (with / without a default host): the class of the answer — closed, 409, 400, 403, 204,
     # 416, reply with status / length / content-range / body — is COMPARED with the model's request_path (the order of the stages)
     for s in SPECIAL_HEADS:
@@ -736,9 +765,10 @@ def extra_coverage(cases, impl, model, spec):
     return {"inventory": [{"where": w, "partial_operations": o, "covered_by": m} for w, o, m in INVENTORY],
             "cases_per_component": per,
             "exploration_only_cases": len(expl),
-            "exploration_note": "explore.conn / explore.date are a TEST of the unmodelled rest (live handle_connection with default extensions, "
-                                "CORS, CSP, nonce, vary, files, stream_body, a query-parsing and a body-reading handler; the time crate's date "
-                                "parser): their 'model' is the constant 'ends cleanly'",
+            "exploration_note": "explore.conn / explore.server / explore.file / explore.date / explore.urls are a TEST of the unmodelled rest (live "
+                                "handle_connection and a live server with the default extensions + kvarn-extensions, CORS, CSP, nonce, vary rules on three "
+                                "headers, files, templates, stream_body, a query-parsing and a body-reading handler, a rate-limited host): their 'model' is "
+                                "the constant 'ends cleanly'",
             "panics_observed": sum(1 for c in cases if c.id in impl and c.meta.get("kind") != "live-accounting" and extra_oracle(c, impl[c.id])),
             "live_cases": sum(1 for c in cases if c.comp in LIVE),
             "live_cases_not_executed": [{"id": k, "component": v[0], "kind": v[1], "why": v[2]} for k, v in sorted(TROUBLE.items())],
@@ -765,49 +795,73 @@ def directed(rng, mismatches):
 
 
 RULE = ("No PANIC outcome anywhere (oracle independent of the models), and the models predict the implementation's outcome exactly "
-        "(correspondence; a panic must be predicted in both directions). Components: h1.request / h1.headers (kvarn_async::read::request over a "
+        "(correspondence; a panic must be predicted in both directions). Compared components: h1.request / h1.headers (kvarn_async::read::request over a "
         "scripted reader, parse::headers; both arithmetic profiles): bounded-exhaustive over the structural alphabet {G E T SP / : CR LF a 0 - = , ; %} "
         "(raw heads up to length 3 quick / 5 thorough; 'GET' + up to 3 / 5 symbols + blank line; up to 2 / 4 symbols in the target position; header blocks over {a : SP CR LF 0 - ; % NUL 0xff TAB} up to length 3 / 5, directly and behind a request line), "
-        "a list of special heads (bare LF, NUL, non-ASCII, empty parts, over-long tokens, TLS/h2 prefaces), mutated valid heads with random read "
-        "schedules and end modes, heads up to and across the 16 KiB limit; range.serve (Range values: extreme numbers 0..10^40 around 2^32, 2^63, 2^64, "
-        "words over the value alphabet, mutations; both profiles) and stream.window (the same window in stream_body, over loopback); "
-        "neg.list_header (Accept-Encoding / Accept-Language words and random values); explore.date (If-Modified-Since through the time crate, "
-        "exploration); cors.check (Origin, C13's generator); hosts.lookup (Host, C15's generator); pathsan.direct (targets over {/ . % 2 e f a %2e %2f %ff}); "
+        "a list of special heads (bare LF, NUL, non-ASCII, empty parts, blank values, HTTP/0.9 request lines, over-long tokens, TLS/h2 prefaces, huge content-lengths), mutated valid heads with random read "
+        "schedules and end modes, heads up to and across the 16 KiB limit; c02.path (ONE request over loopback through the real handle_connection on a minimal collection "
+        "with / without a default host: closed / 409 / 400 / 403 / 204 / 416 / status + content-length + content-range + body, compared with the model's request_path — the ORDER of the stages); "
+        "range.serve (Range values: extreme numbers 0..10^40 around 2^32, 2^63, 2^64, "
+        "words over the value alphabet, mutations; both profiles) and stream.window (stream_body over loopback: announced length, the bytes really sent — the chunk loop runs to its end on "
+        "files of up to 200000 bytes with windows around the 64 KiB buffer boundaries and beyond the file —, the framing of the next response); "
+        "neg.list_header (Accept-Encoding / Accept-Language words and random values); ims.decide (If-Modified-Since through the REAL hit arm of handle_cache on a warmed cache: 200 / 304 vs. "
+        "Model/Ims.v; one field at a time away from a valid date, random fields, calendar corners, the ends of the time crate's range); "
+        "cors.check (Origin, C13's generator); hosts.lookup (Host, C15's generator); pathsan.direct (targets over {/ . % 2 e f a %2e %2f %ff}); "
         "query.parse / query.iter / pathquery (query strings over {a b = & % 2 %26 %3d e-acute +}, every next/next_back script up to length 4, "
-        "specification: the values of the name in order); present.parse (first lines of served files over {! > SP & CR LF a n o c e = \" '}). "
-        "PLUS an end-to-end EXPLORATION (explore.conn, a test, not a proof): the special heads, mutated valid requests (all header kinds above, "
-        "pipelined, with random TCP segmentation) are sent over loopback to the real kvarn::handle_connection on a host with Extensions::new() + CORS "
-        "rules + vary + handlers + files + stream_body; a counting panic hook and the connection task's JoinHandle::is_panic must stay clean and the "
-        "task must end after the client closes. distinct_nontrivial counts distinct (input, model outcome class) pairs")
+        "specification: the values of the name in order); present.parse (first lines of served files over {! > SP & CR LF a n o c e = \" '}); urls.iter (url_crawl::LinkIter, three filters, "
+        "words over the link syntax and mutated HTML vs. Model/UrlCrawl.v). "
+        "PLUS EXPLORATION (a test, not a proof; the 'model' is 'ends cleanly'): explore.conn — the special heads, mutated valid requests (all header kinds above, "
+        "pipelined, with random TCP segmentation), every header the core / a vary rule / an extension reads with values of 0..2 bytes that are not text or not UTF-8, several requests to a "
+        "rate-limited host (429, drop) — over loopback to the real kvarn::handle_connection on hosts with Extensions::new() + kvarn_extensions::mount_all + CORS "
+        "rules + vary rules + handlers + files + templates + stream_body; a counting panic hook and the connection task's JoinHandle::is_panic must stay clean and the "
+        "task must end after the client closes; explore.server — the same bytes against a real RunConfig::execute server: shutdown::Manager::get_connecions() must return to its idle value; "
+        "explore.file — generated first lines ('!> ' + extension names + arguments) and template files (bounded-exhaustive over {$[ a ] LF CRLF \\ SP}) served through the real Present extensions; "
+        "explore.date; explore.urls. A live case the harness could not execute after three attempts (no socket, no answer within 30 s) is not a verdict: it is counted and named "
+        "(coverage.live_cases_not_executed); more than max(5, 2 %) of them fail the run as a harness error. distinct_nontrivial counts distinct (input, model outcome class) pairs")
 ASSUMPTIONS = [
     "the theorems are about the models; each model is tied to the code by the correspondence run of this property and of its own property "
     "(C01 PathSan, C06 Negotiate, C07 Http1Read, C09 Range/RangeConn, C12 Limiter, C13 Cors, C14 Nonce, C15 Hosts, C16 PresentLine)",
     "query strings, header values and names handed to parse::query / list_header are Rust &str (valid UTF-8): every index the code computes is "
     "next to an ASCII delimiter, so str::get's character-boundary test never fails where the byte model's slice_get succeeds",
     "request_path composes the stages for ONE request of a connection with a host whose page for the URI is given as its representations per "
-    "Accept-Encoding class (as in C09); Prepare/Present/Package/Post extensions other than the modelled ones, TLS, HTTP/2, HTTP/3, WebSockets, "
-    "the compressors and the crates http/h2/rustls/moka/time/tokio are outside the theorems (exploration only)",
+    "Accept-Encoding class (as in C09); the limiter stage takes the history of earlier registrations on the host's limiter (at most usize::MAX / 3 calls, "
+    "the hypothesis of limiter_never_panics); Prepare/Present/Package/Post extensions other than the modelled ones, TLS, HTTP/2, HTTP/3, WebSockets, "
+    "the compressors and the crates http/h2/rustls/moka/tokio are outside the theorems (exploration only)",
     "bodies fit in memory (length < 2^64), the hypothesis of range_never_panics (page_fits)",
     "stream.window: whether seeking a file to an offset in [2^31, 2^63) succeeds depends on the file system; those starts are out of domain "
-    "(the model's seek fails exactly beyond i64::MAX)",
+    "(the model's seek fails exactly beyond i64::MAX); stream_body_never_panics: every read returns at most the 64 KiB buffer and file offsets stay "
+    "below 2^63 (what the kernel guarantees)",
+    "if_modified_since_never_panics: the cache entry was not made in the first second of the year -9999 (the server's clock); Model/Ims.v transcribes "
+    "the time crate 0.3.55 without the large-dates feature (weekday parsed but not checked, optional sign before a four-digit year) — a crate update "
+    "that changes the parser shows up as a mismatch of ims.decide; the model takes the generator's clock for the entry's creation time, values within two "
+    "days of it are not compared (C04 decides those to the second)",
+    "Model/UrlCrawl.v and the template / Present code of kvarn-extensions work on FILE or UPSTREAM content, not on request bytes (the property's "
+    "quantifier over served files); the HTTP/2 push extension itself (which calls url_crawl) is not reached: HTTP/1 only",
 ]
 TRUSTED = ["modelled here (Model/Panics.v): utils/src/parse.rs query, Query::{insert,index_of,iterate_to_first,iterate_to_last}, QueryPairIter "
-           "(repaired code, commit 55bc7f7), src/comprash.rs PathQuery, src/extensions.rs stream_body (window arithmetic)",
+           "(repaired code, commit 55bc7f7), src/comprash.rs PathQuery, src/extensions.rs stream_body (window arithmetic and the chunk loop); "
+           "Model/Ims.v: the If-Modified-Since test of handle_cache incl. the time crate's parser for HTTP_DATE; Model/UrlCrawl.v: url_crawl::LinkIter "
+           "(repaired code, commit fa13a8b) and its two filters",
            "borrowed models (tied by their own properties and re-run here): Http1Read.v, Range.v, RangeConn.v, PathSan.v, Negotiate.v, Cors.v, Hosts.v, "
            "PresentLine.v, Limiter.v, Nonce.v",
-           "harness/src/c02.rs, c02conn.rs (loopback client, counting panic hook), c07.rs (scripted reader), c09.rs, c06.rs, c13.rs, c15.rs, c01.rs, c16.rs",
-           "the ORDER in which request_path composes the stages is a hand transcription of handle_connection / handle_cache / SendKind::send; "
-           "each stage is compared with the code, the composition as a whole only through the exploration run (no panic on a live connection)"]
+           "harness/src/c02.rs, c02conn.rs (loopback client, counting panic hook, real server on a locked port, fixture tree), c07.rs (scripted reader), c09.rs, c06.rs, c13.rs, c15.rs, c01.rs, c16.rs",
+           "the ORDER in which request_path composes the stages is a hand transcription of handle_connection / handle_cache / SendKind::send, COMPARED "
+           "with the real handle_connection by component c02.path on a minimal collection (class of the answer); the page, the cache state and the limiter "
+           "history are parameters of the theorem, instantiated there by a 10-byte page, no cache, limiter off"]
 LEVEL_TEXT = ("Machine-checked Coq theorems: every modelled parser / decision function on the request path returns without panic for EVERY input "
-              "(request heads under every read schedule and end mode, header blocks, Range / Accept-Encoding / Origin / Host values, paths, query "
-              "strings, query iterator scripts, cache keys, stream windows; both arithmetic modes where overflow matters), and the composition "
-              "request_path (reader -> host choice -> sanitize -> CORS origin test -> cache key -> file path -> query parsing -> negotiation -> "
-              "cache -> range -> send) never panics for any head, schedule, host collection, page and cache state. The models are byte-faithful "
+              "(request heads under every read schedule and end mode, header blocks, Range / Accept-Encoding / If-Modified-Since / Origin / Host values, paths, query "
+              "strings, query iterator scripts, cache keys, the whole streaming loop of stream_body for every window, file length and sequence of read results; "
+              "both arithmetic modes where overflow matters), and the composition "
+              "request_path, in the code's order (reader -> host choice -> request limiter -> sanitize path / range -> CORS gate incl. preflight -> cache key -> file path -> "
+              "query parsing -> negotiation -> cache -> range -> send), never panics for any head, schedule, host collection, limiter configuration and history, page and cache state. "
+              "The If-Modified-Since test is modelled with the time crate's parser: no header value panics it, it answers 304 exactly for a date not older than creation - 1 s, and the "
+              "rewrite that does its arithmetic on the client's date is refuted (year 9999). The models are byte-faithful "
               "transcriptions with every slice / index / unwrap / checked arithmetic explicit and are tied to the code on every run by a "
-              "differential run in which a panic must be predicted exactly, plus a model-independent no-panic oracle; one defect found on the way "
-              "(Query::get_last always panicked) is repaired and its old behaviour kept as a refuted statement. What is NOT modelled (http, time, "
-              "moka, tokio, compressors, TLS/h2/h3, extension code other than the modelled ones) is covered by an exploration run against a live "
-              "connection only — a test, not a proof.")
+              "differential run in which a panic must be predicted exactly — the composition itself by the class of the answer of the real handle_connection —, plus a "
+              "model-independent no-panic oracle; three defects found on the way are repaired and their old behaviour kept as refuted statements where modelled "
+              "(Query::get_last always panicked; url_crawl::LinkIter on an unclosed quote; kvarn-extensions' template parser on an empty last template — the latter found and guarded by exploration only). "
+              "What is NOT modelled (http, moka, tokio, compressors, TLS/h2/h3, vary lookup, CSP, MIME detection, kvarn-extensions' Present code) is covered by exploration runs against live "
+              "connections, a live server (whose connection count must return to idle) and generated file contents only — a test, not a proof.")
 LEVEL_NOTE = ("Partial by construction: panic-freedom is proved for the modelled functions (see coverage.inventory for the table of partial "
               "operations and what covers each) and tested for the rest. Trusted: Coq kernel, extraction (reduced by the kernel recheck sample), "
               "the hand transcriptions as validated by the differential runs. No axioms.")
@@ -856,6 +910,10 @@ THEOREMS = [
      "forall (creation : Z) (hdr : option bytes), (odt_min + 1 <= creation <= odt_max)%Z -> (ims_fresh false creation hdr = Ok true <-> exists v ts, hdr = Some v /\\ Http1Read.hv_to_str_ok v = true /\\ parse_http_date v = Some ts /\\ (creation - 1 <= ts)%Z) /\\ (ims_fresh false creation hdr = Ok true \\/ ims_fresh false creation hdr = Ok false)"),
     ("if_modified_since_plus_variant_refuted",
      "forall creation : Z, ims_fresh true creation (Some last_second) = Panic"),
+    ("link_iter_never_panics",
+     "forall (filter : bytes -> nat -> bool) (interdomain : bool) (data : bytes), link_iter false filter interdomain data <> Panic"),
+    ("link_iter_v0_refuted",
+     "link_iter true filter_resource false unclosed = Panic /\\ link_iter true filter_absolute false unclosed = Panic /\\ link_iter false filter_resource false unclosed = Ok [IPath (B \"/abc\") (B \"<img src=\" ++ [34]) 1]"),
     ("present_line_never_panics",
      "forall data : bytes, exists r, PresentLine.present_parse data = Ok r /\\ match r with | Some p => (PresentLine.p_data_start p <= length data)%nat /\\ PresentLine.p_body p = skipn (PresentLine.p_data_start p) data | None => True end"),
     ("nonce_rewriter_never_panics",
